@@ -166,6 +166,10 @@ func (m *monState) onStep(si *StepInfo, pre, post *Snap, evs []Event) {
 			m.checkReload(si, res, pre, post)
 		case "shutdown":
 			m.checkShutdownReturn(si, res, pre, post)
+		case "http":
+			if res.Route != "" {
+				m.checkAuthHTTP(si, res, pre, post, evs)
+			}
 		}
 	}
 
